@@ -3,6 +3,7 @@
    Print Assumptions. *)
 From Coq Require Import String List ZArith Arith Bool.
 From PV Require Import Model.W4SPrelude Gen.GenSolver Alg.C13Solver Alg.C13Solver2 Alg.C13Gen Alg.C13Opts Alg.C13Driver.
+From PV Require Import Base.Index Alg.C13Samplers Alg.C13Harness Alg.C13Direct.
 Import ListNotations.
 
 (* ================================ LBFGSB: the options handed to scipy ================================ *)
@@ -90,3 +91,30 @@ Theorem C13_driver_bound_table : forall o v d m i s c g, gcp_opt (mkReq (OEnum o
   (match c with CStochastic lb _ _ => lb | CLbfgsb lb _ _ => lb end) <> UserLb.
 Proof. exact driver_bound_table. Qed.
 Print Assumptions C13_driver_bound_table.
+
+(* ================================ samplers.nonzeros / samplers.zeros called directly ================================ *)
+(* nonzeros: refused exactly for more samples than nonzeros WITHOUT replacement; samples = nnz takes every stored entry once *)
+Theorem C13_nonzeros_mode : forall nnz samples wr,
+  (nonzeros_mode nnz samples wr = NzReject <-> wr = false /\ nnz < samples) /\
+  (nonzeros_mode nnz samples wr = NzIdentity <-> samples = nnz).
+Proof. exact nonzeros_mode_spec. Qed.
+Print Assumptions C13_nonzeros_mode.
+
+(* zeros: never more rows than requested, every row one of the drawn subscripts and no nonzero's, without replacement no row twice
+   (np.unique = any duplicate-free selection of its input) *)
+Theorem C13_zeros_rows : forall (uniq : list (list Z) -> list (list Z)),
+  (forall l, NoDup (uniq l)) -> (forall l, incl (uniq l) l) ->
+  forall s nzidx wr draws req,
+  let rows := zeros_rows uniq s nzidx wr draws req in
+  length rows <= req /\
+  (forall r, In r rows -> In r (map (draw_row D53 s) draws) /\ is_zero_row s nzidx r = true) /\
+  (wr = false -> NoDup rows).
+Proof. exact zeros_rows_spec. Qed.
+Print Assumptions C13_zeros_rows.
+
+(* zeros without replacement: a request above the number of zeros (or needing as many draws as the tensor has cells) is refused, not
+   silently short-changed; with replacement only an oversampling rate below 1.1 is refused *)
+Theorem C13_zeros_accept_bound : forall rate_ok size numz samples ntmp1,
+  zeros_decide rate_ok false size numz samples ntmp1 = None -> (samples <= numz /\ ntmp1 < size)%Z /\ rate_ok = true.
+Proof. exact zeros_accept_bound. Qed.
+Print Assumptions C13_zeros_accept_bound.
